@@ -637,7 +637,10 @@ def check_object_forms(case):
              np.sum(np.concatenate([rp[0], ref], axis=2), axis=0, keepdims=True)),
         ]
         for nm, fn_, exp_ in mixed_obs:
-            forms.append((nm, (lambda s, q, fn_=fn_: pathfix(fn_(s, q))), exp_, False, sc * L))
+            # the position arrays may lie inside a body while all sensors are outside (J/M: sensors see 0): the tolerance
+            # is relative to the scale of the whole expected array, not only of the sensors' part
+            forms.append((nm, (lambda s, q, fn_=fn_: pathfix(fn_(s, q))), exp_, False,
+                          max(sc, scale_of(exp_) or 0.0) * L))
     # plain position arrays as observers: list / tuple / ndarray / a Sensor at the origin carrying them as pixels
     P = case.get("obs_positions")
     if P is not None:
